@@ -23,7 +23,8 @@
            g m = stats.Rand(d)(r) next to the reference generator (own Rand method / InvCDF(d) at the
            first non-zero value of an equally seeded source)
            kinds: 0 TDist 1 UDist 2 KDE 3 Binomial 4 Hypergeometric 5 Normal 6 Delta 7 harness geometric
-           8 harness Poisson (7, 8: full DiscreteDist, infinite support, approximate Bounds)
+           8 harness Poisson (7, 8: full DiscreteDist, infinite support, approximate Bounds) 9 harness atom +
+           exponential tail (mixed) 10 harness two-sided power law (continuous, heavy tails)
      op 8  Kolmogorov-Smirnov distance computed HERE: the n draws of stats.Rand with a seeded math/rand
            source, sorted by the harness, against the exact pw_cdf:   7 8  nk { x l v }*  bl bh  st  n { draw }*
      op 7  Rand on a relational-kind distribution with a scripted source:
